@@ -410,11 +410,14 @@ class Ctx:
                     continue
                 (known if e.get("kind") == "known" else fixed).append(e)
         violations = []
+        machinery = []     # failed preconditions / set-up problems of the harness itself: never a verdict on the code
         kf = []
         for f in self.failures:
             k = [e for e in known if e["key"] == f["key"]]
             if k:
                 kf.append((f, k[0]))
+            elif str(f["key"]).startswith("harness"):
+                machinery.append(f)
             else:
                 violations.append(f)
         for f, e in kf:
@@ -475,6 +478,11 @@ class Ctx:
         print("%s %s: evaluations=%d distinct=%d states=%d transitions=%d traces=%d violations=%d known=%d wall=%.1fs" % (
             self.prop, self.tier, self.evaluations, cov["distinct_nontrivial"], self.states, self.transitions,
             self.traces_validated, len(violations), len(kf), time.time() - self.t0), flush=True)
+        if machinery and rc == 0:
+            for f in machinery[:5]:
+                print("INCONCLUSIVE: the harness could not set up or judge a case (no verdict on the code): key=%s count=%d: %s" % (
+                    f["key"], f["count"], str(f["what"])[:400]))
+            return 2
         return rc
 
 
